@@ -1176,8 +1176,8 @@ type PolygonGeometryReferences struct {
 
 func (p *PolygonGeometryReferences) FromPathIDs(paths []b6.FeatureID, nt *NamespaceTable) {
 	p.Paths = p.Paths[0:0]
-	for i, id := range paths {
-		p.Paths[i] = Reference{TypeAndNamespace: CombineTypeAndNamespace(id.Type, nt.Encode(id.Namespace)), Value: id.Value}
+	for _, id := range paths {
+		p.Paths = append(p.Paths, Reference{TypeAndNamespace: CombineTypeAndNamespace(id.Type, nt.Encode(id.Namespace)), Value: id.Value})
 	}
 }
 
@@ -1552,6 +1552,7 @@ func (a *Area) FromFeature(f *ingest.AreaFeature, s *encoding.StringTableBuilder
 				}
 			}
 		}
+		a.Polygons = polygons
 	}
 }
 
